@@ -296,6 +296,16 @@ func structured(r *hx.Rng, k int) gx.G {
 		}
 		at += sz
 	}
+	// now and then join two pieces or remove an edge
+	if r.Chance(1, 2) {
+		for t := r.Range(1, 2); t > 0; t-- {
+			u, v := r.Intn(k), r.Intn(k)
+			if u != v {
+				g.Adj[u] ^= 1 << uint(v)
+				g.Adj[v] ^= 1 << uint(u)
+			}
+		}
+	}
 	if r.Chance(1, 3) {
 		for u := 0; u < k; u++ {
 			for v := u + 1; v < k; v++ {
@@ -327,16 +337,12 @@ func relabel(g *gx.G, q []int) gx.G {
 // and h get the same canonical form (label_pair_check).  maxAut bounds |Aut(g)| (the checker
 // enumerates the group by brute force).
 func specCase(r *hx.Rng, k, count int, maxAut uint64) string {
-	t := newTableBuilder()
-	var sb strings.Builder
+	var gs []gx.G
 	seen := map[uint64]bool{}
-	n := 0
-	for tries := 0; n < count && tries < 50*count; tries++ {
+	for tries := 0; len(gs) < count && tries < 50*count; tries++ {
 		var g gx.G
 		if r.Chance(3, 4) {
 			g = structured(r, k)
-			q0 := r.Perm(k)
-			g = relabel(&g, q0)
 		} else {
 			tot := uint(k * (k - 1) / 2)
 			dens := r.Range(1, 7)
@@ -352,14 +358,64 @@ func specCase(r *hx.Rng, k, count int, maxAut uint64) string {
 			continue
 		}
 		seen[g.Bits()] = true
+		gs = append(gs, g)
+	}
+	return specPairs(r, k, gs)
+}
+
+// specPairs: every listed graph under a random labelling, paired with a random relabelling.
+func specPairs(r *hx.Rng, k int, gs []gx.G) string {
+	t := newTableBuilder()
+	var sb strings.Builder
+	for n := range gs {
+		g := relabel(&gs[n], r.Perm(k))
 		q := r.Perm(k)
 		h := relabel(&g, q)
 		t.addGraph(&g)
 		t.addGraph(&h)
 		fmt.Fprintf(&sb, ";P%d=%s|%s|%s", n, edgeString(&g), edgeString(&h), joinInts(q))
-		n++
 	}
-	return fmt.Sprintf("spec %d %d%s%s", k, n, t.String(), sb.String())
+	return fmt.Sprintf("spec %d %d%s%s", k, len(gs), t.String(), sb.String())
+}
+
+// classReps: one graph of every isomorphism class on k vertices whose automorphism group has
+// between minAut and maxAut elements (|Aut| by the independent backtracking of gx).  The list of
+// classes is what search.All(k, 0, 1) of the linked library yields; it only serves as a source of
+// graphs (nothing is assumed of it: whatever is listed is checked).
+func classReps(k int, minAut, maxAut uint64) []gx.G {
+	var out []gx.G
+	it := search.All(k, 0, 1)
+	for it.Next() {
+		g := gx.Raw(it.Value())
+		if g.N != k {
+			continue
+		}
+		if a := gx.AutCount(&g); a >= minAut && a <= maxAut {
+			out = append(out, g)
+		}
+	}
+	return out
+}
+
+// emitClassCases: the classes in chunks of 40 pairs per case.
+func emitClassCases(g *hx.Gen, k int, reps []gx.G, limit int) {
+	if limit > 0 && len(reps) > limit {
+		// a seeded random subset
+		idx := g.Rng.Perm(len(reps))[:limit]
+		sort.Ints(idx)
+		sub := make([]gx.G, 0, limit)
+		for _, i := range idx {
+			sub = append(sub, reps[i])
+		}
+		reps = sub
+	}
+	for at := 0; at < len(reps); at += 40 {
+		end := at + 40
+		if end > len(reps) {
+			end = len(reps)
+		}
+		g.Emit(specPairs(g.Rng, k, reps[at:end]))
+	}
 }
 
 // ---------------------------------------------------------------- the combinations
@@ -478,11 +534,15 @@ func exec(line string) hx.Result {
 		head = line[:i]
 	}
 	f := strings.Fields(head)
+	if f[0] == "tablepanic" {
+		return hx.Result{Obs: line, Nontrivial: true, Buckets: []string{"outcome:panic"},
+			Viol: []hx.OracleViolation{hx.Fail("tablepanic", "the real code panicked while the table %s was computed (graph.CanonicalIsomorphAllocated, the k-subset orbit loop or search.All on valid inputs)", f[1])}}
+	}
 	n, _ := strconv.Atoi(f[1])
 	if f[0] == "spec" {
 		// nothing to run on this side: the table of the case was computed by the real code in gen;
 		// the model driver prints the verdict of the extracted checker in place of `ok`
-		return hx.Result{Obs: fmt.Sprintf("spec k=%d pairs=%s | spec:ok", n, f[2]), Nontrivial: true,
+		return hx.Result{Obs: fmt.Sprintf("spec k=%d pairs=%s | spec:ok ## ksubloop:ok(%d)", n, f[2], strings.Count(line, ";K")), Nontrivial: true,
 			Buckets: []string{fmt.Sprintf("spec-sample k=%d", n)}}
 	}
 	res := hx.Result{Buckets: []string{fmt.Sprintf("n=%d", n)}}
@@ -537,27 +597,54 @@ func exec(line string) hx.Result {
 		}
 	}
 	res.Nontrivial = total >= 2
-	res.Obs = pj.String() + " ##" + st.String()
+	// strict part: first the verdict of the model of the k-subset orbit loop (ksub_real of
+	// Search/OrderlyInstKsubModel.v) against the K entries of the table, printed by the model side
+	res.Obs = pj.String() + fmt.Sprintf(" ## ksubloop:ok(%d)", strings.Count(line, ";K")) + st.String()
 	return res
+}
+
+// emitSafely: the tables are computed by the real code here, in the generator.  A panic of the
+// real code on one of these valid inputs must not kill the run: it becomes a case of its own
+// whose execution reports the panic as a violation (as a panic inside Exec would be).
+func emitSafely(g *hx.Gen, what string, f func()) {
+	defer func() {
+		if e := recover(); e != nil {
+			g.Emit("tablepanic " + what)
+		}
+	}()
+	f()
 }
 
 func gen(g *hx.Gen) {
 	nmax := g.Pick(5, 6)
 	for n := nmax; n >= 0; n-- {
-		g.Emit(fmt.Sprintf("cosim %d%s", n, buildTables(n)))
+		n := n
+		emitSafely(g, fmt.Sprintf("cosim-%d", n), func() { g.Emit(fmt.Sprintf("cosim %d%s", n, buildTables(n))) })
 	}
 	g.Exhaustive(fmt.Sprintf("co-simulation of the extracted model of Next with search.WithPruning for every n <= %d, every shard a < m, m in {1,2,3,4,7}, predicates none / edges>3 / maxdeg>2 / triangle as preprune, prune (and both)", nmax))
-	// sampled graphs above the exhaustive sizes for the spec checker
+	g.Exhaustive(fmt.Sprintf("canon_spec (Search/OrderlySpec.v) evaluated by the extracted, proved checker check_upto on the real answers of graph.CanonicalIsomorphAllocated and of the k-subset orbit loop for EVERY labelled graph with at most %d vertices and every ViableBits", nmax))
+	// graphs above the exhaustive sizes for the spec checker (per-graph clauses and equal forms of
+	// relabelled pairs): the symmetric isomorphism classes on 7 vertices (quick), all classes on 7
+	// vertices and a sample of the symmetric ones on 8 (thorough), and random / structured graphs
 	if g.Thorough() {
+		emitSafely(g, "classes-7", func() { emitClassCases(g, 7, classReps(7, 1, 720), 0) })
+		emitSafely(g, "classes-7-sym", func() { emitClassCases(g, 7, classReps(7, 6, 720), 0) })
+		emitSafely(g, "classes-8", func() { emitClassCases(g, 8, classReps(8, 12, 150), 120) })
 		for i := 0; i < 8; i++ {
-			g.Emit(specCase(g.Rng, 7, 40, 200))
+			emitSafely(g, "sample-7", func() { g.Emit(specCase(g.Rng, 7, 40, 200)) })
 		}
 		for i := 0; i < 4; i++ {
-			g.Emit(specCase(g.Rng, 8, 12, 50))
+			emitSafely(g, "sample-8", func() { g.Emit(specCase(g.Rng, 8, 12, 50)) })
 		}
 	} else {
-		g.Emit(specCase(g.Rng, 7, 30, 100))
+		emitSafely(g, "classes-7-sym", func() {
+			sym := classReps(7, 12, 240)
+			emitClassCases(g, 7, sym, 0)
+			emitClassCases(g, 7, sym, 0) // again, under other labellings
+		})
+		emitSafely(g, "sample-7", func() { g.Emit(specCase(g.Rng, 7, 40, 200)) })
 	}
+	g.Note("spec checker: canon_spec evaluated by the extracted check_upto on ALL graphs with at most nmax vertices (every ViableBits), and per graph (check_graph, label_pair_check) on relabelled pairs of 7- and 8-vertex graphs")
 }
 
 func main() {
